@@ -271,6 +271,24 @@ def run_one(drv, rng, V, stats, scenario, n_resets, wseed):
                         d = [f for f in ("controlled_hosts", "known_hosts", "known_networks", "known_data", "known_services", "known_blocks") if getattr(map_view(a, sig, delta), f) != getattr(b, f)]
                         V.fail("script-view:" + ",".join(d), f"step {i} of the translated script after re-labelling {r + 1}: observation differs from the translated static observation in {d}", rep)
                         break
+            # every network scanned from every start host on the new addresses: what the scan reveals is what the model reveals on the
+            # re-labelled tables (a host may sit on ANY address of its new network, the last one included)
+            drv.ask({"op": "world", "world": C.world2j(co)})
+            v_now = co._agent_states[("127.0.0.1", 40000)]
+            for net in sorted(co._networks, key=str):
+                for src in sorted(v_now.controlled_hosts, key=str)[:2]:
+                    act = Action(ActionType.ScanNetwork, {"source_host": src, "target_network": net})
+                    try:
+                        nv = world_step(co, v_now, act)
+                    except Exception:
+                        break
+                    m = drv.ask({"op": "step", "view": C.view2j(v_now), "action": C.action2j(act)})
+                    stats["walk_steps"] += 1
+                    if m["raised"] or C.canon_view(m["view"]) != C.canon_view(C.view2j(nv)):
+                        lost = sorted(set(map(str, C.canon_view(m["view"])["known"])) ^ set(map(str, C.canon_view(C.view2j(nv))["known"]))) if not m["raised"] else []
+                        V.fail("scan-after-relabel", f"after re-labelling {r + 1} in {scenario}, scanning {net} from {src} does not reveal what the model reveals on the re-labelled tables (hosts in one result only: {[str(C.n2ip(int(x))) for x in lost][:4]})",
+                               dict(rep, view=C.view2j(v_now), action=C.action2j(act)))
+                        break
             # the world on the new addresses behaves like the model on the re-labelled tables
             if r % 3 == 1:
                 drv.ask({"op": "world", "world": C.world2j(co)})
@@ -300,6 +318,8 @@ class GenTie:
     compared = 0
     fallbacks = 0
     host_draws = 0
+    last_address_forced = 0
+    coin = random.Random(20261001)
 
     def __init__(self, drv, world):
         self.drv, self.w = drv, world
@@ -329,6 +349,15 @@ class GenTie:
 
         def rec(lst, *a, **k):
             self._orig_shuffle(lst, *a, **k)
+            # any permutation is a possible outcome of the shuffle: now and then the LAST address of the network is moved to the
+            # front, so that a host receives it (the generator's own random stream is not touched)
+            if len(lst) > 1 and GenTie.coin.random() < 0.25:
+                try:
+                    i = lst.index(max(lst))
+                    lst[0], lst[i] = lst[i], lst[0]
+                    GenTie.last_address_forced += 1
+                except Exception:
+                    pass
             self.shuffles.append([str(x) for x in lst[:64]])
         _random.shuffle = rec
 
@@ -475,7 +504,7 @@ def main(tier):
         V.proof_fail("correspondence NSG.relabelPrivate (theorem C13_generator) <-> NSGCoordinator._create_new_network_mapping: " + GenTie.mismatches[0][0])
     code, nviol = V.finish()
     cov = {"obligations": info.get("obligations", 0), "discharged": info.get("discharged", 0),
-           "generator_draws_compared": GenTie.compared, "generator_host_draws_compared": GenTie.host_draws, "generator_fallbacks": GenTie.fallbacks, "generator_mismatches": len(GenTie.mismatches),
+           "generator_draws_compared": GenTie.compared, "generator_host_draws_compared": GenTie.host_draws, "shuffles_with_last_address_first": GenTie.last_address_forced, "generator_fallbacks": GenTie.fallbacks, "generator_mismatches": len(GenTie.mismatches),
            "checker_cmd": "lake build NSG.Properties.C13 NSG.Properties.C13Goal NSG.Properties.C13Gen && lake env lean <#print axioms of every theorem>",
            "trusted_base": TRUSTED_BASE + ["Faker / random as seeded oracles: the value drawn for the private networks is recorded and fed to the model generator (relabelPrivate); public networks and host addresses inside each network are validated on every reset rather than modelled"],
            "theorems": info.get("theorems", []), "axioms_seen": info.get("axioms_seen", []),
